@@ -364,6 +364,8 @@ fn chain(img: &Img, c: &Cfg, variant: &str, seed: u64) -> Result<(Vec<Img>, usiz
         enc.mipmaps.generate = true;
         enc.mipmaps.resize_filter = c.filter;
         enc.mipmaps.resize_straight_alpha = c.sa;
+        // the generated chain must not depend on whether the encoder may use the thread pool
+        enc.options.parallel = seed % 3 != 0;
         enc.write_surface(view).map_err(|e| format!("err write {e:?}"))?;
         if !enc.is_done() {
             return Err("err not-done".into());
@@ -527,6 +529,7 @@ fn run_seq(t: &[&str]) -> Option<(String, Vec<String>)> {
             let mut enc = Encoder::new(&mut file, Format::R8G8B8A8_UNORM, &header).map_err(|e| format!("err new {e:?}"))?;
             enc.mipmaps.generate = true;
             enc.mipmaps.resize_filter = filter;
+            enc.options.parallel = seed % 3 != 0;
             for (i, (chan, prec)) in faces.iter().enumerate() {
                 let color = ColorFormat::new(*chan, precision(*prec));
                 let bpr = w as usize * nch(*chan) * prec.bytes();
